@@ -441,7 +441,7 @@ func (vc *VC) applyContract(fr *Frame, st *State, callee *ssa.Function, con *Con
 		vc.assume(st, vc.wf(st, r))
 	}
 	post := vc.contractEnv(callee, args, st, pre, results)
-	if vc.safetyOff {
+	if vc.callsHavoc {
 		return packResults(callee.Signature, results)
 	}
 	for _, e := range con.Ensures {
